@@ -101,9 +101,11 @@ async def run_superstep_async(
         input_versions = {param: state.get_version(param) for param in node.inputs}
         wait_for_versions = {name: state.get_version(name) for name in node.wait_for}
 
-        # Check cache before execution
+        # Check cache before execution. An interrupt answered through resume values is
+        # neither looked up nor stored: the answer is the caller's, not the handler's.
+        resumed = node.is_interrupt and node.name not in state.node_executions and all(o in state.values for o in node.data_outputs)
         cache_key, cached_outputs = ("", None)
-        if cache is not None:
+        if cache is not None and not resumed:
             cache_key, cached_outputs = check_cache(node, inputs, cache)
 
         if cached_outputs is not None:
